@@ -308,3 +308,31 @@ Proof. intros Hproj Hclosed Hprop Hsum HF.
   apply vi_nearest. apply Hvi; assumption. Qed.
 
 End Vec.
+
+(* ---- the hypotheses of asweep_fixpoint_nearest are satisfiable ----
+   two coordinates, one half-space  w 1 >= w 0, start x0 = (1, 0): the state
+   x = (1/2, 1/2) with increment (-1/2, 1/2) is reproduced by a sweep. *)
+Lemma hs_proj_proper {A} (I : list A) (c f g : A -> Q) : veq I f g -> veq I (hs_proj I c f) (hs_proj I c g).
+Proof. intros E i Hi. unfold hs_proj. rewrite (E i Hi). rewrite (ip_ext I c c f g (veq_refl I c) E). reflexivity. Qed.
+
+Definition ex_I : list nat := [0%nat; 1%nat].
+Definition ex_c : nat -> Q := fun i => if (i =? 0)%nat then -1 else 1.
+Definition ex_x0 : nat -> Q := fun i => if (i =? 0)%nat then 1 else 0.
+Definition ex_x : nat -> Q := fun _ => 1#2.
+Definition ex_e : nat -> Q := fun i => if (i =? 0)%nat then -(1#2) else 1#2.
+Definition ex_sl : list (slot (A:=nat)) := [mkSlot (fun w => 0 <= ip ex_I ex_c w) (hs_proj ex_I ex_c) ex_e].
+Example asweep_fixpoint_hyps :
+  (forall s, In s ex_sl -> is_proj ex_I (s_C s) (s_P s)) /\
+  (forall s, In s ex_sl -> forall f g, veq ex_I f g -> s_C s f -> s_C s g) /\
+  (forall s, In s ex_sl -> forall f g, veq ex_I f g -> veq ex_I (s_P s f) (s_P s g)) /\
+  veq ex_I ex_x (vadd ex_x0 (vsum (map s_e ex_sl))) /\
+  Forall2 (fun s s' => veq ex_I (s_e s') (s_e s)) ex_sl (snd (asweep ex_sl ex_x)) /\
+  ~ veq ex_I ex_x ex_x0.
+Proof. split; [|split; [|split; [|split; [|split]]]].
+  - intros s [<-|[]]. cbn [s_C s_P]. apply halfspace_is_proj. vm_compute. reflexivity.
+  - intros s [<-|[]] f g E. cbn [s_C]. rewrite (ip_ext ex_I ex_c ex_c f g (veq_refl _ _) E). auto.
+  - intros s [<-|[]] f g E. cbn [s_P]. apply hs_proj_proper. exact E.
+  - intros i [<-|[<-|[]]]; vm_compute; reflexivity.
+  - cbn [asweep ex_sl snd s_e s_P s_C]. constructor; [|constructor]. cbn [s_e].
+    intros i [<-|[<-|[]]]; vm_compute; reflexivity.
+  - intros H. specialize (H 0%nat (or_introl eq_refl)). vm_compute in H. discriminate H. Qed.
